@@ -16,6 +16,8 @@ from .astutil import FUNC_TYPES, attr_chain, dotted, norm
 
 class EffectDomain(DefaultDomain):
     track_lists = True
+    exact_dicts = True
+    exact_lists = True
 
     def __init__(self, classes, attrs=None, track=None, results=None, raises=None, consts=True, inline=True, log_cap=12, lacks=(), oracle=None, ctors=(), track_stores=()):
         self.classes = classes
@@ -48,7 +50,7 @@ class EffectDomain(DefaultDomain):
             return "T" if value[1] else "F"
         if isinstance(value, tuple) and value[:1] in (("bound",), ("wobj",), ("new",)):
             return "T"
-        if isinstance(value, tuple) and value[:1] == ("attr",):
+        if isinstance(value, tuple) and value[:1] in (("attr",), ("set",)):
             return "TF"
         if isinstance(value, tuple) and value[:1] == ("tuple",):
             return "T" if len(value) > 1 else "F"
@@ -57,11 +59,146 @@ class EffectDomain(DefaultDomain):
         return super().truth(value)
 
     def is_none(self, value):
-        if isinstance(value, tuple) and value[:1] in (("const",), ("bound",), ("wobj",), ("tuple",), ("kwdict",), ("ret",), ("arg",), ("new",)):
+        if isinstance(value, tuple) and value[:1] in (("const",), ("bound",), ("wobj",), ("tuple",), ("kwdict",), ("ret",), ("arg",), ("new",), ("set",), ("concat",), ("methodcaller",), ("lazymap",)):
             return "F"
         if isinstance(value, tuple) and value[:1] == ("attr",):
             return "TF"   # the value of an attribute of a symbolic object is anything
         return super().is_none(value)
+
+    def binop(self, node, left, right):
+        if isinstance(node.op, ast.Add):
+            parts = []
+            for v in (left, right):
+                if isinstance(v, tuple) and v[:1] == ("concat",):
+                    parts.extend(v[1:])
+                elif isinstance(v, tuple) and v[:1] == ("tuple",) and isinstance(left, tuple) and left[:1] == ("tuple",) and isinstance(right, tuple) and right[:1] == ("tuple",):
+                    return left + right[1:]
+                else:
+                    parts.append(v)
+            if all(isinstance(p_, tuple) and p_[:1] == ("const",) and isinstance(p_[1], str) for p_ in parts):
+                return ("const", "".join(p_[1] for p_ in parts))
+            if all(p_ != TOP for p_ in parts):
+                return ("concat",) + tuple(parts)
+        return TOP
+
+    def compare(self, op, left, right):
+        if isinstance(op, (ast.In, ast.NotIn)) and isinstance(right, tuple) and right[:1] == ("kwdict",) and isinstance(left, tuple) and left[:1] == ("const",):
+            hit = any(k == left[1] for k, _ in right[1])
+            return "T" if hit == isinstance(op, ast.In) else "F"
+        if isinstance(op, (ast.Eq, ast.NotEq)) and isinstance(left, tuple) and isinstance(right, tuple) and left[:1] == ("const",) and right[:1] == ("const",):
+            return "T" if (left == right) == isinstance(op, ast.Eq) else "F"
+        return None
+
+    def subscript(self, base, idx, st, fr):
+        if isinstance(base, tuple) and base[:1] == ("kwdict",) and isinstance(idx, tuple) and idx[:1] == ("const",):
+            for k, v in base[1]:
+                if k == idx[1]:
+                    return v
+        return None
+
+    def store_subscript(self, target, value, st, fr, interp):
+        # kw["name"] = value on a local holding a keyword dict
+        if isinstance(target.value, ast.Name) and isinstance(target.slice, ast.Constant):
+            key = fr.local(target.value.id)
+            cur = st.get(key, None)
+            if isinstance(cur, tuple) and cur[:1] == ("kwdict",):
+                items = tuple((k, v) for k, v in cur[1] if k != target.slice.value) + ((target.slice.value, value),)
+                return st.set(key, ("kwdict", items))
+        return st
+
+    def iter_exact(self, value):
+        if isinstance(value, tuple) and value[:1] == ("kwitems",):
+            return [("tuple", ("const", k), v) for k, v in value[1]]
+        if isinstance(value, tuple) and value[:1] == ("kwdict",):
+            return [("const", k) for k, _ in value[1]]
+        return None
+
+    def _kwdict_method(self, interp, call, st, fr):
+        """get / pop / setdefault / items / keys / values / copy on a local that holds a keyword dict."""
+        f = call.func
+        if not (isinstance(f, ast.Attribute) and isinstance(f.value, ast.Name)):
+            return None
+        key = fr.local(f.value.id)
+        cur = st.get(key, None)
+        if not (isinstance(cur, tuple) and cur[:1] == ("kwdict",)) or f.attr not in ("get", "pop", "setdefault", "items", "keys", "values", "copy", "update"):
+            return None
+        out = []
+        for r in interp.eval_list(list(call.args), st, fr):
+            if r.kind == "exc":
+                out.append(r)
+                continue
+            cur = r.state.get(key)
+            d_ = dict(cur[1])
+            a = r.value
+            name = a[0][1] if a and isinstance(a[0], tuple) and a[0][:1] == ("const",) else None
+            if f.attr == "items":
+                out.append(val(("kwitems", cur[1]), r.state))
+            elif f.attr == "keys":
+                out.append(val(("tuple",) + tuple(("const", k) for k, _ in cur[1]), r.state))
+            elif f.attr == "values":
+                out.append(val(("tuple",) + tuple(v for _, v in cur[1]), r.state))
+            elif f.attr == "copy":
+                out.append(val(cur, r.state))
+            elif name is None:
+                out.append(val(TOP, r.state.set(key, TOP) if f.attr in ("pop", "setdefault", "update") else r.state))
+            elif f.attr == "get":
+                out.append(val(d_.get(name, a[1] if len(a) > 1 else NONE), r.state))
+            elif f.attr == "pop":
+                if name in d_:
+                    out.append(val(d_[name], r.state.set(key, ("kwdict", tuple((k, v) for k, v in cur[1] if k != name)))))
+                elif len(a) > 1:
+                    out.append(val(a[1], r.state))
+                else:
+                    out.append(exc(("exc", "KeyError"), r.state))
+            elif f.attr == "setdefault":
+                if name in d_:
+                    out.append(val(d_[name], r.state))
+                else:
+                    v = a[1] if len(a) > 1 else NONE
+                    out.append(val(v, r.state.set(key, ("kwdict", cur[1] + ((name, v),)))))
+            else:
+                out.append(val(TOP, r.state.set(key, TOP)))
+        return out
+
+    # lazy sequences: map(fn, seq) does nothing until it is consumed
+    def force_sequence(self, interp, value, st, fr):
+        if not (isinstance(value, tuple) and value[:1] == ("lazymap",)):
+            return None
+        fn, seq = value[1], value[2]
+        els = interp._exact_elements(seq)
+        if els is None:
+            return [val(TOP, st)]
+        cur = [(st, ())]
+        out = []
+        for elv in els:
+            nxt = []
+            for s_, acc in cur:
+                for r in self._apply(interp, fn, elv, s_, fr):
+                    if r.kind == "exc":
+                        out.append(r)
+                    else:
+                        nxt.append((r.state, acc + (r.value,)))
+            cur = nxt
+        out.extend(val(("tuple",) + acc, s_) for s_, acc in cur)
+        return out
+
+    def _apply(self, interp, fn, arg, st, fr):
+        """Call the abstract callable fn with one argument."""
+        if isinstance(fn, tuple) and fn[:1] == ("methodcaller",) and isinstance(arg, tuple) and arg[:1] == ("wobj",):
+            name = f"{arg[1]}.{fn[1]}"
+            log = st.get("ev.calls", ())
+            outcomes = self.oracle(name, fn[2], fn[3]) if self.oracle is not None else None
+            if outcomes is None:
+                outcomes = [("val", v) for v in self.results.get(name, [("ret", arg[1], fn[1])])] + [("exc", e) for e in self.raises.get(name, [])]
+            out = []
+            for kind, v in outcomes:
+                s2 = st.set("ev.calls", log + ((name, fn[2], fn[3], "ok" if kind == "val" else (v[1] if isinstance(v, tuple) and len(v) > 1 else "raised")),))
+                out.append(val(v, s2) if kind == "val" else exc(v, s2))
+            return out
+        if isinstance(fn, tuple) and len(fn) == 2 and fn[0] == "func":
+            params = [p.arg for p in fn[1].args.args]
+            return interp.inline(fn[1], {params[0]: arg} if params else {}, st, fr, receiver=fr.receiver, is_method=False)
+        return [val(TOP, st)]
 
     def load_attr(self, chain, st, fr):
         if all(isinstance(c, str) for c in chain):
@@ -179,6 +316,120 @@ class EffectDomain(DefaultDomain):
                     out.append(val(("attr", obj, name), r.state))
                 else:
                     out.append(val(("bool",) if d == "hasattr" else TOP, r.state))
+            return out
+        kwm = self._kwdict_method(interp, call, st, fr)
+        if kwm is not None:
+            return kwm
+        if d in ("set", "frozenset") and len(call.args) <= 1 and not call.keywords:
+            if not call.args:
+                return [val(("set", ("empty",)), st)]
+            return [r if r.kind == "exc" else val(("set", ("copy", r.value)), r.state) for r in interp.eval(call.args[0], st, fr)]
+        f_ = call.func
+        if isinstance(f_, ast.Attribute) and isinstance(f_.value, ast.Name) and f_.attr in ("update", "difference_update", "add", "discard", "intersection_update", "copy", "union", "difference") and len(call.args) <= 1:
+            key = fr.local(f_.value.id)
+            cur = st.get(key, None)
+            if isinstance(cur, tuple) and cur[:1] == ("set",):
+                out = []
+                for r in interp.eval_list(list(call.args), st, fr):
+                    if r.kind == "exc":
+                        out.append(r)
+                        continue
+                    cur = r.state.get(key)
+                    arg = r.value[0] if r.value else None
+                    op = {"update": "union", "union": "union", "difference_update": "minus", "difference": "minus", "add": "with", "discard": "without", "intersection_update": "meet"}.get(f_.attr)
+                    if f_.attr == "copy":
+                        out.append(val(("set", ("copy", cur)), r.state))
+                    elif f_.attr in ("union", "difference"):
+                        out.append(val(("set", (op, cur[1], arg)), r.state))
+                    else:
+                        out.append(val(NONE, r.state.set(key, ("set", (op, cur[1], arg)))))
+                return out
+        if d.split(".")[-1] == "methodcaller" and call.args:
+            out = []
+            pos = [a.value if isinstance(a, ast.Starred) else a for a in call.args]
+            for r in interp.eval_list(pos + [k.value for k in call.keywords], st, fr):
+                if r.kind == "exc":
+                    out.append(r)
+                    continue
+                vals_ = []
+                for a, v in zip(call.args, r.value[: len(pos)]):
+                    if isinstance(a, ast.Starred) and isinstance(v, tuple) and v[:1] == ("tuple",):
+                        vals_.extend(v[1:])
+                    else:
+                        vals_.append(v)
+                kw = []
+                for k, v in zip(call.keywords, r.value[len(pos):]):
+                    if k.arg is None and isinstance(v, tuple) and v[:1] == ("kwdict",):
+                        kw.extend(v[1])
+                    else:
+                        kw.append((k.arg or "**", v))
+                name = vals_[0][1] if isinstance(vals_[0], tuple) and vals_[0][:1] == ("const",) else "?"
+                out.append(val(("methodcaller", name, tuple(vals_[1:]), tuple(kw)), r.state))
+            return out
+        if d == "zip" and call.args and not call.keywords:
+            out = []
+            for r in interp.eval_list([a.value if isinstance(a, ast.Starred) else a for a in call.args], st, fr):
+                if r.kind == "exc":
+                    out.append(r)
+                    continue
+                seqs = []
+                for a, v in zip(call.args, r.value):
+                    if isinstance(a, ast.Starred) and isinstance(v, tuple) and v[:1] == ("tuple",):
+                        seqs.extend(v[1:])
+                    else:
+                        seqs.append(v)
+                els = [interp._exact_elements(x) for x in seqs]
+                if any(e is None for e in els) or not els:
+                    out.append(val(TOP, r.state))
+                else:
+                    out.append(val(("tuple",) + tuple(("tuple",) + t for t in zip(*els)), r.state))
+            return out
+        if isinstance(call.func, ast.Name) and st.has(fr.local(call.func.id)):
+            fv = st.get(fr.local(call.func.id))
+            if isinstance(fv, tuple) and fv[:1] == ("methodcaller",):
+                out = []
+                for r in interp.eval_list([a.value if isinstance(a, ast.Starred) else a for a in call.args], st, fr):
+                    if r.kind == "exc":
+                        out.append(r)
+                        continue
+                    vals_ = []
+                    for a, v in zip(call.args, r.value):
+                        if isinstance(a, ast.Starred) and isinstance(v, tuple) and v[:1] == ("tuple",):
+                            vals_.extend(v[1:])
+                        else:
+                            vals_.append(v)
+                    out.extend(self._apply(interp, fv, vals_[0] if vals_ else TOP, r.state, fr))
+                return out
+        if d == "map" and len(call.args) >= 2 and not call.keywords:
+            out = []
+            for r in interp.eval_list([a.value if isinstance(a, ast.Starred) else a for a in call.args], st, fr):
+                if r.kind == "exc":
+                    out.append(r)
+                    continue
+                vals_ = []
+                for a, v in zip(call.args, r.value):
+                    if isinstance(a, ast.Starred) and isinstance(v, tuple) and v[:1] == ("tuple",):
+                        vals_.extend(v[1:])
+                    else:
+                        vals_.append(v)
+                out.append(val(("lazymap", vals_[0], vals_[1]) if len(vals_) == 2 else TOP, r.state))
+            return out
+        if d == "dict" and not call.args:
+            out = []
+            for r in interp.eval_list([k.value for k in call.keywords], st, fr):
+                if r.kind == "exc":
+                    out.append(r)
+                    continue
+                items = []
+                for k, v in zip(call.keywords, r.value):
+                    if k.arg is None and isinstance(v, tuple) and v[:1] == ("kwdict",):
+                        items.extend(v[1])
+                    elif k.arg is None:
+                        items = None
+                        break
+                    else:
+                        items.append((k.arg, v))
+                out.append(val(("kwdict", tuple(items)) if items is not None else TOP, r.state))
             return out
         if d in self.ctors:
             out = []
